@@ -59,6 +59,20 @@ func (env *SpecEnv) lookup(name string) (specVal, bool) {
 	if v, ok := env.vars[name]; ok {
 		return v, true
 	}
+	if env.inOld {
+		// inside old(...), in a closure executed in the context of its creator: a parameter of an
+		// enclosing function denotes its value on entry (the cell it was captured through did not
+		// exist in the old state)
+		for fr := env.fr; fr != nil && fr.fn.Parent() != nil && fr.caller != nil; fr = fr.caller {
+			for _, p := range fr.caller.fn.Params {
+				if p.Name() == name {
+					if v, ok := fr.caller.vals[p]; ok {
+						return specVal{v, p.Type()}, true
+					}
+				}
+			}
+		}
+	}
 	if v, ok := env.lookupIn(env.fr, name); ok {
 		return v, true
 	}
@@ -380,6 +394,17 @@ func (env *SpecEnv) equal(l, r specVal) Term {
 			return TTrue
 		}
 		sfail("comparison of %T with nil", l.v)
+	}
+	{
+		// an opaque boxed value (ifaceval of an interface whose content is not statically known)
+		// against a struct value: undetermined, neither provable nor refutable
+		_, lt := l.v.(Term)
+		_, rt := r.v.(Term)
+		_, lsv := l.v.(VStruct)
+		_, rsv := r.v.(VStruct)
+		if (lt && rsv) || (lsv && rt) {
+			return env.e.sym.Fresh("opaqueeq", SBool)
+		}
 	}
 	if ls, ok := l.v.(VSeq); ok {
 		rs := env.toSeq(r)
@@ -800,6 +825,12 @@ func (env *SpecEnv) evalCall(n ECall) specVal {
 		if !ok {
 			sfail("ifaceval of %T", x.v)
 		}
+		if iv.Dyn != nil && iv.DynT != nil {
+			if _, isStruct := iv.Dyn.(VStruct); isStruct {
+				// the boxed value is statically known (a conversion at this site): the value itself
+				return specVal{iv.Dyn, iv.DynT}
+			}
+		}
 		return specVal{iv.Val, mathInt}
 	case "isnil":
 		return specVal{env.equal(env.eval(n.Args[0]), specVal{nilVal{}, nil}), boolT}
@@ -941,6 +972,25 @@ func (env *SpecEnv) evalCall(n ECall) specVal {
 		if len(n.Args) != len(sf.Params) {
 			sfail("spec function %s: %d arguments, want %d", n.Fn, len(n.Args), len(sf.Params))
 		}
+		// a spec function with a parameter of type "ref" (a pointer into the heap) is a macro: its
+		// body is evaluated in the current state (or the old one, inside old(...)) with the
+		// parameters bound to the arguments; it cannot be recursive
+		isMacro := false
+		for _, sp := range sf.Params {
+			if sp.Type == "ref" {
+				isMacro = true
+			}
+		}
+		if isMacro {
+			if sf.Rec || sf.Body == nil {
+				sfail("spec function %s: a heap-dependent (ref) spec function needs a non-recursive body", n.Fn)
+			}
+			sub := env.clone()
+			for i, a := range n.Args {
+				sub.vars[sf.Params[i].Name] = env.eval(a)
+			}
+			return sub.eval(sf.Body)
+		}
 		var args []Term
 		for i, a := range n.Args {
 			switch sf.Params[i].Type {
@@ -1025,6 +1075,15 @@ func (e *Engine) specPrelude(formula string) string {
 	var decls, defs []string
 	for _, k := range keys {
 		sf := e.cs.Specs[k]
+		isMacro := false
+		for _, p := range sf.Params {
+			if p.Type == "ref" {
+				isMacro = true
+			}
+		}
+		if isMacro {
+			continue // heap-dependent: expanded where it is used
+		}
 		var ps []string
 		env := &SpecEnv{e: e, st: &State{heap: map[string]Term{}, ghost: map[string]Term{}}, vars: map[string]specVal{}, pkg: sf.Pkg}
 		for _, p := range sf.Params {
